@@ -150,7 +150,13 @@ where
 
     fn update_current_values(&mut self) {
         if let Some(timeline) = self.timelines.get(&self.current_state) {
-            timeline.update(&mut self.current_values, self.state_duration.as_secs_f64() as f32);
+            // Once the animation is over - by the test that `is_ended` uses - the values are the
+            // final values. The timeline's own end test subtracts the delay before it compares,
+            // which can differ from `duration()` by a rounding of the total; relative to a cycle
+            // that is far shorter than the delay this is a large step back into the animation.
+            let seconds = self.state_duration.as_secs_f64() as f32;
+            let time = if seconds >= timeline.duration() { f32::MAX } else { seconds };
+            timeline.update(&mut self.current_values, time);
         }
     }
 }
